@@ -39,6 +39,10 @@ SEQ_FIXED = [
     ('lambda a, b: a + b\n', ['lambda a, b: a + b\n', 'lambda a, b: ___\n', 'lambda a, b: b + a\n', 'lambda _a_, _b_: _a_ + _b_\n']),
     ('x[1:2] = y[::2]\n', ['x[1:2] = y[::2]\n', 'x[___:___] = ___\n', 'x[1:2] = y[::___]\n', '_x_[1:2] = _y_[::2]\n']),
     ('a, b = b, a\n', ['a, b = b, a\n', '_a_, _b_ = _b_, _a_\n', 'a, b = ___\n', '___ = b, a\n']),
+    # a parameter default beside the parameters, below an operator whose operands are matched without the field check
+    ('y = 1 + (lambda a, b=2: a)(3)\n', ['y = 1 + (lambda a, b=2: a)(3)\n', '_y_ = 1 + (lambda _a_, b=2: _a_)(3)\n', 'y = ___ + (lambda _a_, _b_=___: _a_)(3)\n',
+                                          'y = 1 + (lambda a, b=2: a)(___)\n']),
+    ('y = k * (lambda a, b=k: a + b)(3)\n', ['_y_ = _k_ * (lambda _a_, _b_=_k_: _a_ + _b_)(3)\n', 'y = k * (lambda a, b=k: a + b)(3)\n']),
     ('x = not a and (b or -c)\n', ['x = not a and (b or -c)\n', 'x = not a and ___\n', 'x = ___ and (___ or ___)\n', '_x_ = not _a_ and (_b_ or -_c_)\n']),
 ]
 
@@ -48,6 +52,10 @@ PAY = "total = 0\nfor r in rs:\n    total = total + (r['a'] + bonus * 2)\nprint(
 # (program, outer pattern, its expectation, the placeholder to continue below, inner pattern, its expectation)
 TWO = "a = 1\nb = 2\nprint(a + b)\n"
 CONT_FIXED = [
+    # the expression bound is a single name other than the one _v_ stands for
+    ("a = 1\nprint(b)\n", "_v_ = 1\nprint(__e__)\n", {'names': {'_v_': 'a'}, 'exps': {'__e__': 'b'}}, '__e__', "___\n", {'names': {}, 'exps': {}}),
+    ("a = 1\nprint(b + a)\n", "_v_ = 1\nprint(__e__)\n", {'names': {'_v_': 'a'}, 'exps': {'__e__': 'b + a'}}, '__e__', "___ + _v_\n",
+     {'names': {'_v_': 'a'}, 'exps': {}}),
     # two matches of the outer pattern (_v_ = a / _v_ = b) bind __e__ to the SAME expression a + b
     (TWO, "_v_ = ___\nprint(__e__)\n", {'names': {}, 'exps': {'__e__': 'a + b'}}, '__e__', "___ + ___\n", {'names': {}, 'exps': {}}),
     (RAIN, "for _r_ in ___:\n    total = total + __expr__\n", {'names': {'_r_': 'report'}, 'exps': {'__expr__': "report['Data']['Rain']"}},
@@ -105,7 +113,7 @@ def must_match(case, pi):
 def correspondence(ctx):
     rng = ctx.rng
     n = 60 if ctx.tier == 'quick' else 700
-    must = ('pay = bonus + rate * hours\n', 'area = (a + b) * (top + bottom)\n')   # every pattern listed for these is derived from them
+    must = ('pay = bonus + rate * hours\n', 'area = (a + b) * (top + bottom)\n', 'y = 1 + (lambda a, b=2: a)(3)\n', 'y = k * (lambda a, b=k: a + b)(3)\n')   # every pattern listed for these is derived from them
     cases = [{'program': p, 'patterns': ps,
               'meta': [('self' if q == p else ('derived' if p in must else 'fixed'), {'names': {}, 'exps': {}, 'steps': ['fixed-derivation']} if p in must else None)
                        for q in ps],
@@ -190,6 +198,8 @@ def correspondence(ctx):
                      sample={'program': case['program'], 'outer': cont['outer'], 'inner': cont['inner'], 'expected': cont['inner_exp'],
                              'below': one.get('below')} if len(case['program']) < 200 else None)
             for pm in one.get('per_match', []):
+                if pm.get('conflict'):
+                    continue      # a C10 probe: nothing has to match
                 ctx.count('continued-searches:per-match')
                 if isinstance(pm['got'], str) or [pm['identifier']] not in pm['got']:
                     ctx.violation('continued-search-wrong-binding',
